@@ -1095,6 +1095,7 @@ class Frame(registering.StoriedRegistrar):
         """
         over = self.over
         under = self
+        seen = [] # frames climbed so far, to catch a loop that does not pass through self
 
         while over: #not beyond top
             if not isinstance(over, Frame): #over is name of frame not ref so resolve
@@ -1104,7 +1105,7 @@ class Frame(registering.StoriedRegistrar):
                 except KeyError:
                     raise excepting.ResolveError("Bad over link in outline", self.name, name)
 
-                if over == self: #check for loop
+                if over == self or over in seen: #check for loop
                     raise excepting.ResolveError("Outline overs create loop", self.name, under.name)
 
                 #attach under to over
@@ -1119,9 +1120,10 @@ class Frame(registering.StoriedRegistrar):
                 under.over = over #assign valid over ref
 
             else: #over is valid frame reference so don't need to resolve
-                if over == self: #check for loop
+                if over == self or over in seen: #check for loop
                     raise excepting.ResolveError("Outline overs create loop", self.name, under.name)
 
+            seen.append(over)
             under = over
             over = over.over #rise one level
 
